@@ -48,8 +48,10 @@ COMPONENTS = {"real": ["redress.circuit.CircuitBreaker", "redress.budget.Budget"
               "stub": ["threading.Lock inside the component (cooperative SimLock)", "thread scheduler (baton, seeded)", "clock (frozen SimClock)",
                        "oracle: brute-force linearizability against the component's own single-threaded replay"]}
 ASSUMPTIONS = ["pre-emption granularity: source lines of circuit.py/budget.py (quick), bytecodes (part of thorough)",
-               "the clock does not move while the threads race (each method samples the clock before taking the lock; moving time "
-               "between sample and lock is a different question from atomicity)", "sampling of schedules, not exhaustive enumeration"]
+               "the clock does not move while the threads race where linearizability is demanded (each method samples the clock before "
+               "taking the lock; a sample that predates a concurrent advance is a question of time-stamping, not of atomicity); 30% of "
+               "the budget scenarios do move the clock and are held to the window bound on the grant stamps only",
+               "sampling of schedules, not exhaustive enumeration"]
 INTERLEAVING_MEASURE = "distinct (concurrent program, context-switch sequence) pairs"
 STATES_MEASURE = "distinct component states (state, probe flag, history length / tokens, lock held) observed at yield points"
 BUDGETS = {"quick": (9000, 90), "thorough": (400000, 285)}
@@ -87,6 +89,11 @@ def gen(seed, tier="quick"):
         scn["init"] = init
         pool = [["allow"], ["allow"], ["fail", "TRANSIENT"], ["fail", "SERVER_ERROR"], ["success"], ["cancel"], ["state"], ["fail", "PERMANENT"]]
         scn["suffix"] = [["state"], ["allow"], ["state"], ["fail", "TRANSIENT"], ["state"]]
+        if r.random() < 0.2:
+            # the injected clock is itself thread-safe (takes its own lock), and some caller reads breaker.state while
+            # holding that lock: legal, and harmless as long as the breaker never calls the clock with its lock held
+            scn["locked_clock"] = True
+            pool = pool + [["state_locked"], ["state_locked"]]
     else:
         mx = r.choice([1, 1, 2, 3, 4])
         cfg = {"max": mx, "window_us": 8 * U}
@@ -103,6 +110,11 @@ def gen(seed, tier="quick"):
         scn["init"] = init
         pool = [["consume", 1], ["consume", 1], ["consume", 2], ["remaining"]]
         scn["suffix"] = [["remaining"], ["consume", 1], ["remaining"]]
+        if r.random() < 0.3:
+            # time moves while the threads race (each method samples the clock before it takes the lock)
+            scn["moving_clock"] = True
+            pool = [["consume", 1], ["consume", 1], ["consume", 1], ["adv", 5 * U], ["adv", 4 * U], ["adv", U], ["remaining"]]
+            scn["suffix"] = ([["adv", 4 * U]] + [["consume", 1]] * mx + [["remaining"], ["adv", 4 * U]] + [["consume", 1]] * mx)
     nthreads = r.choice([2, 2, 3])
     scn["threads"] = [[list(r.choice(pool)) for _ in range(r.choice([1, 1, 2, 3]))] for _ in range(nthreads)]
     scn["strategy"] = r.choice(["random", "random", "pct", "rtc"])
@@ -172,7 +184,13 @@ def apply_breaker_model(m, name, arg, now):
     raise AssertionError(name)
 
 
+AUX = {}   # id(instance) -> {"clock": SimClock, "lock": SimLock}  (side table: the components may use __slots__)
+
+
 def apply_breaker_real(b, name, arg):
+    if name == "state_locked":
+        with AUX[id(b)]["lock"]:
+            return b.state.value
     if name == "allow":
         d = b.allow()
         return (d.allowed, d.event, d.state.value)
@@ -194,6 +212,9 @@ def apply_budget_model(m, name, arg, now):
 
 
 def apply_budget_real(b, name, arg):
+    if name == "adv":
+        AUX[id(b)]["clock"].advance(arg)
+        return None
     if name == "consume":
         return b.consume(arg)
     return b.remaining()
@@ -203,6 +224,7 @@ def execute(scn):
     seams.install_threading(FAKE)
     FAKE.locks = []
     FAKE.sched = None
+    AUX.clear()
     comp = scn["component"]
     cfg = scn["cfg"]
     viol = []
@@ -211,12 +233,22 @@ def execute(scn):
         """fresh real component + its clock, with the sequential initial history replayed"""
         ck = SimClock(0)
         seams.bind(ck, None)
+        aux = {"clock": ck, "lock": None}
         if comp == "breaker":
+            clock_fn = ck.monotonic
+            if scn.get("locked_clock"):
+                lk = FAKE.Lock()
+                aux["lock"] = lk
+
+                def clock_fn(lk=lk, ck=ck):
+                    with lk:
+                        return ck.monotonic()
             inst = CircuitBreaker(failure_threshold=cfg["F"], window_s=cfg["window_us"] / 1e6, recovery_timeout_s=cfg["recovery_us"] / 1e6,
                                   class_thresholds={ErrorClass[k]: v for k, v in (cfg.get("class_thresholds") or {}).items()} or None,
-                                  clock=ck.monotonic)
+                                  clock=clock_fn)
         else:
             inst = Budget(max_retries=cfg["max"], window_s=cfg["window_us"] / 1e6)
+        AUX[id(inst)] = aux
         for op in scn["init"]:
             if op[0] == "adv":
                 ck.advance(op[1])
@@ -255,12 +287,14 @@ def execute(scn):
                 a = op[1] if len(op) > 1 else None
                 gseq[0] += 1
                 inv = gseq[0]
+                t_inv = clock.mono_us
                 try:
                     res = ar(real, op[0], a)
                 except Exception as exc:  # a race can make real code raise (e.g. deque mutated)
                     res = "raised:" + type(exc).__name__
                 gseq[0] += 1
-                history.append({"tid": tid, "i": i, "inv": inv, "ret": gseq[0], "name": op[0], "arg": a, "result": res})
+                history.append({"tid": tid, "i": i, "inv": inv, "ret": gseq[0], "name": op[0], "arg": a, "result": res,
+                                "t_inv": t_inv, "t_ret": clock.mono_us})
         return run
 
     sched = Scheduler(make_chooser(scn), files=("redress/circuit.py", "redress/budget.py"), opcode=bool(scn.get("opcode")), step_cap=20000)
@@ -285,6 +319,7 @@ def execute(scn):
         for lk in FAKE.locks:
             lk.owner = None
         suffix_res = []
+        t_suffix0 = clock.mono_us
         for op in scn["suffix"]:
             a = op[1] if len(op) > 1 else None
             try:
@@ -294,8 +329,31 @@ def execute(scn):
         def make_instance():
             inst, _ck = build()          # rebinding the clock seam is fine: the racing phase is over
             return inst
-        ok, w = linearizable_by_replay(make_instance, history, lambda inst, n, a: ar(inst, n, a),
-                                       [(o[0], o[1] if len(o) > 1 else None) for o in scn["suffix"]], suffix_res)
+        if scn.get("moving_clock"):
+            # Time moved during the race.  Each consume() stamps its grant with a clock sample taken somewhere between
+            # its invocation and its return, so linearizability against a replay (which samples at one point) is not
+            # demanded; what must hold for every interleaving is the window bound on those stamps: if grants worth
+            # more than max_retries certainly lie inside one window (latest return - earliest invocation < window_s)
+            # the budget over-granted.
+            grants = [(h["t_inv"], h["t_ret"], h["arg"]) for h in history if h["name"] == "consume" and h["result"] is True]
+            t = t_suffix0
+            for (op, res_) in zip(scn["suffix"], suffix_res):
+                if op[0] == "adv":
+                    t += op[1]
+                elif op[0] == "consume" and res_ is True:
+                    grants.append((t, t, op[1]))
+            w = cfg["window_us"]
+            for g in grants:
+                inside = [h for h in grants if h[0] >= g[0] and h[1] < g[0] + w]
+                if sum(h[2] for h in inside) > cfg["max"]:
+                    viol.append(V("R1", "over-grant under a moving clock: more than max_retries tokens certainly inside one window",
+                                  {"component": comp, "cfg": cfg, "grants": sorted(inside), "history": sorted(history, key=lambda h: h["inv"]),
+                                   "suffix": list(zip(map(tuple, scn["suffix"]), suffix_res))}))
+                    break
+            ok = True
+        else:
+            ok, w = linearizable_by_replay(make_instance, history, lambda inst, n, a: ar(inst, n, a),
+                                           [(o[0], o[1] if len(o) > 1 else None) for o in scn["suffix"]], suffix_res)
         seams.bind(clock, None)
         if not ok:
             sig = "no sequential order of the same operations explains the results"
